@@ -27,20 +27,7 @@ def main():
     if r.violation:
         raise vlib.Infra("the specified protocol violates %s in the model" % r.violation)
     # unbounded: TLAPS proves RaceFree for any number of goroutines, calls and cells (spec/ConcProof.tla)
-    pd = vlib.sub("c12-proof")
-    import shutil
-    shutil.copy(os.path.join(vlib.SPEC, "ConcProof.tla"), pd)
-    try:
-        tp = subprocess.run(["tlapm", "--cleanfp", "--threads", "8", "ConcProof.tla"], cwd=pd, capture_output=True, text=True, timeout=900)
-        out = tp.stdout + tp.stderr
-        m = re.search(r"All (\d+) obligations proved", out)
-        if m:
-            chk.notes["tlaps_obligations_proved"] = int(m.group(1))
-            vlib.log("TLAPS: all %s obligations of ConcProof.tla proved (RaceFree for unbounded parameters)" % m.group(1))
-        else:
-            raise vlib.Infra("TLAPS did not prove ConcProof.tla:\n" + out[-1500:])
-    except (FileNotFoundError, subprocess.TimeoutExpired) as e:
-        raise vlib.Infra("tlapm: %s" % e)
+    vlib.run_tlaps(chk, "ConcProof")
     if not quick:
         cfg2 = cfg.replace('MODE = "create"', 'MODE = "lazy"').replace("PROPERTY ReadOnlyAfterCreate\n", "")
         r2 = vlib.run_tlc("Conc", cfg2, vlib.sub("c12-lazy"), files={"world.json": world}, timeout=1800)
